@@ -96,6 +96,11 @@ class Sym:
         return self.loc_value_at(loc, self.pos(bid, idx))
 
     def loc_value_at(self, loc, pos):
+        n = 0
+        rm = self.fn.refmap()
+        while len(loc) == 1 and loc[0] in rm and n < 20:
+            loc = rm[loc[0]]   # references are transparent
+            n += 1
         key = (loc, pos)
         if key in self._memo:
             return self._memo[key]
@@ -136,6 +141,9 @@ class Sym:
         elif d.kind == 'mutborrow':
             prev = self.loc_value_at(T, dpos)
             base = ('after', self.call_expr_at(dpos), d.extra['arg'], prev)
+        elif d.kind == 'havoc':
+            ty = fn.local_ty(T[0]) if len(T) == 1 else None
+            base = ('havoc', T, dpos[0], ty)
         else:
             return ('phi', loc, (d.id,))
         return self.project(base, rest)
@@ -155,7 +163,7 @@ class Sym:
             fo = t.get('fn_operand')
             callee = ('indirect', self.operand_at(fo, pos)) if fo else '?'
         args = tuple(self.operand_at(a, pos) for a in t['args'])
-        e = ('call', callee, args, bid)
+        e = ('call', callee, args, (fn.path, bid))
         self._memo[key] = e
         return e
 
@@ -198,7 +206,13 @@ class Sym:
         if 'bin' in rv:
             return ('bin', rv['bin'], self.operand_at(rv['a'], pos), self.operand_at(rv['b'], pos))
         if 'cast' in rv:
-            return ('cast', self.operand_at(rv['a'], pos), rv['to'], rv['cast'])
+            p = op_place(rv['a'])
+            from_ty = None
+            if p is not None and not p['proj']:
+                from_ty = self.fn.local_ty(p['local'])
+            elif 'const' in rv['a']:
+                from_ty = rv['a']['const'].get('ty')
+            return ('cast', self.operand_at(rv['a'], pos), rv['to'], rv['cast'], from_ty)
         if 'agg' in rv:
             k = rv['agg']
             ops = [self.operand_at(o, pos) for o in rv['ops']]
@@ -225,11 +239,22 @@ class Sym:
         return ('cother', json.dumps(rv)[:80], '?')
 
 
+class _Havoc:
+    kind = 'havoc'
+    id = -1
+
+    def __init__(self, target, bid):
+        self.target = target
+        self.bid = bid
+        self.idx = 'H'
+        self.extra = None
+
+
 class PathSym(Sym):
     """Path-sensitive view: `path` is a list of block ids actually traversed; positions are (k, idx)
     with path[k] the block.  Exactly one definition reaches every use, so no phi arises from joins."""
 
-    def __init__(self, fn, path):
+    def __init__(self, fn, path, havoc=False):
         Sym.__init__(self, fn)
         self.path = list(path)
         fn.reaching()  # make sure _eff/_by_block exist
@@ -239,7 +264,15 @@ class PathSym(Sym):
             if d.kind == 'entry':
                 for P in fn._eff[d.id][0]:
                     cur[P] = [(d, ('entry', d.idx))]
+        hv = fn.loop_havoc() if havoc else {}
         for k, bid in enumerate(self.path):
+            if bid in hv:
+                # arriving at a loop header: every location the loop body may modify gets an arbitrary value,
+                # so one traversal of the body stands for every iteration
+                for (T, strong_on) in hv[bid]:
+                    hd = _Havoc(T, bid)
+                    for P in strong_on:
+                        cur[P] = [(hd, (k, 'H'))]
             self._pstate.append(dict(cur))
             for d in fn._by_block.get(bid, []):
                 self._apply(cur, d, (k, d.idx))
@@ -359,6 +392,8 @@ def fmt(e, depth=0):
         return f"phi({'.'.join(str(x) for x in e[1])})"
     if h == 'undef':
         return f"undef({e[1]})"
+    if h == 'havoc':
+        return f"any({'.'.join(str(x) for x in e[1])}@{e[2]})"
     return str(e)
 
 
@@ -399,6 +434,65 @@ def calls_in(e, suffix=None):
 
 def mentions(e, pred):
     return any(pred(x) for x in walk(e))
+
+
+LEAVES = {'const', 'cfn', 'cbytes', 'citem', 'cpromoted', 'cother', 'undef', 'phi', 'havoc'}
+
+
+def map_children(e, f):
+    """rebuild e with f applied to every direct sub-expression"""
+    if not isinstance(e, tuple):
+        return e
+    h = e[0]
+    if h in LEAVES or h == 'param':
+        return e
+    if h == 'call':
+        callee = e[1]
+        if isinstance(callee, tuple):
+            callee = (callee[0], f(callee[1]))
+        return ('call', callee, tuple(f(a) for a in e[2]), e[3])
+    if h == 'agg':
+        return ('agg', e[1], tuple((n, f(v)) for n, v in e[2]))
+    if h in ('tuple', 'array'):
+        return (h, tuple(f(x) for x in e[1]))
+    if h == 'closure':
+        return ('closure', e[1], tuple(f(x) for x in e[2]))
+    if h == 'bin':
+        return ('bin', e[1], f(e[2]), f(e[3]))
+    if h == 'un':
+        return ('un', e[1], f(e[2]))
+    if h == 'after':
+        return ('after', f(e[1]), e[2], f(e[3]))
+    return (h, f(e[1])) + tuple(e[2:])
+
+
+def subst(e, m):
+    """replace ('param', name, idx) by m[idx] (m: dict idx -> expr); None = identity"""
+    if m is None or not isinstance(e, tuple):
+        return e
+    if e[0] == 'param':
+        return m.get(e[2], e)
+    return map_children(e, lambda x: subst(x, m))
+
+
+def simplify_proj(e):
+    """field-of-aggregate / index-of-tuple reductions after substitution"""
+    if not isinstance(e, tuple):
+        return e
+    e = map_children(e, simplify_proj)
+    if e[0] == 'field':
+        b = e[1]
+        if b[0] == 'agg':
+            for n, v in b[2]:
+                if n == e[2]:
+                    return v
+        if b[0] == 'tuple' and e[2].isdigit() and int(e[2]) < len(b[1]):
+            return b[1][int(e[2])]
+        if b[0] == 'variant' and b[2] == 'Continue' and e[2] == '0':
+            inner = b[1]
+            if inner[0] == 'call' and isinstance(inner[1], str) and (inner[1].endswith('Try>::branch') or inner[1].endswith('Try::branch')):
+                return ('okof', inner[2][0])
+    return e
 
 
 def strip_casts(e):
